@@ -125,12 +125,12 @@ func (self Path) ToRaw(t proto.Type) []byte {
 	case PathStrKey:
 		// tag + string key
 		ret := make([]byte, 0, DefaultTagSliceCap)
-		tag := uint64(1)<<3 | uint64(proto.STRING)
+		tag := uint64(1)<<3 | uint64(proto.BytesType) // the WIRE type of a string key (proto.STRING is a proto.Type)
 		ret = protowire.BinaryEncoder{}.EncodeUint64(ret, tag)
 		ret = protowire.BinaryEncoder{}.EncodeString(ret, self.str())
 		return ret
 	case PathIntKey:
-		// tag + int key
+		// tag + int key; t is the type of the map KEY
 		kind := t.TypeToKind()
 		ret := make([]byte, 0, DefaultTagSliceCap)
 		tag := uint64(1)<<3 | uint64(proto.Kind2Wire[kind])
@@ -148,6 +148,14 @@ func (self Path) ToRaw(t proto.Type) []byte {
 			ret = protowire.BinaryEncoder{}.EncodeSint64(ret, int64(self.l))
 		case proto.SFIX64:
 			ret = protowire.BinaryEncoder{}.EncodeSfixed64(ret, int64(self.l))
+		case proto.UINT32:
+			ret = protowire.BinaryEncoder{}.EncodeUint32(ret, uint32(self.l))
+		case proto.UINT64:
+			ret = protowire.BinaryEncoder{}.EncodeUint64(ret, uint64(self.l))
+		case proto.FIX32:
+			ret = protowire.BinaryEncoder{}.EncodeFixed32(ret, uint32(self.l))
+		case proto.FIX64:
+			ret = protowire.BinaryEncoder{}.EncodeFixed64(ret, uint64(self.l))
 		}
 		return ret
 	case PathBinKey:
